@@ -122,3 +122,20 @@ Example C05_ex_sbrk_run :
   | _ => False
   end.
 Proof. vm_compute. split; reflexivity. Qed.
+
+(* ---- the range test host calls apply before reading / writing guest memory ---- *)
+From JamV Require Import Model.PvmRange Proofs.PvmRangeP.
+
+(* a non-empty range is accepted for reading exactly when it lies inside the 32-bit space and every address in
+   it — including those of a last, partial page — is readable; likewise for writing *)
+Theorem C05_range_readable_iff : forall m start len, 0 <= start -> 0 < len ->
+  (range_ok readable m start len = true <->
+   start + len <= ADDR /\ forall a, start <= a < start + len -> readable m a = true).
+Proof. exact range_readable_iff. Qed.
+Print Assumptions C05_range_readable_iff.
+
+Theorem C05_range_writable_iff : forall m start len, 0 <= start -> 0 < len ->
+  (range_ok writable m start len = true <->
+   start + len <= ADDR /\ forall a, start <= a < start + len -> writable m a = true).
+Proof. exact range_writable_iff. Qed.
+Print Assumptions C05_range_writable_iff.
